@@ -98,11 +98,12 @@ def pick_sids(prop: str, wid: str, n: int, seed: int) -> list[int]:
             any(f["shift"] for f in fls),
             any(f["dup"] == "same" for f in fls),
             any(f["dup"] == "renamed" for f in fls),
+            any(f["via_cli"] for f in fls),
             len({s % grid.N_HASH_CLASSES for s in pick}) >= min(4, n),
         ])
         if best is None or cover > best[0]:
             best = (cover, pick)
-        if cover == 7:
+        if cover == 8:
             break
     return sorted(best[1])
 
@@ -369,7 +370,8 @@ def evaluate(run: CheckRun, pool, prop, units, results) -> dict:
     distinct = set()
     undecided = 0
     sim_ns = 0
-    faults = {"job_reorder": 0, "event_reorder": 0, "id_rename": 0,
+    faults = {"listing_order_permuted_cli": 0,
+              "job_reorder": 0, "event_reorder": 0, "id_rename": 0,
               "ts_shift": 0, "job_twice_same_ids": 0,
               "job_twice_new_ids": 0, "subsample": 0, "loop_run_3": 0,
               "hash_classes": set(), "uuid_streams": set(),
@@ -395,6 +397,7 @@ def evaluate(run: CheckRun, pool, prop, units, results) -> dict:
             faults["job_reorder"] += 1
         if p.get("event_perm_seed") is not None:
             faults["event_reorder"] += 1
+        faults["listing_order_permuted_cli"] += bool(r.get("fs_permuted"))
         if p.get("rename_seed") is not None:
             faults["id_rename"] += 1
         if p.get("ts_shift_s"):
